@@ -57,14 +57,31 @@ func init() {
 					jobs = append(jobs, j)
 				}
 			}
+			// second half: dump commands in inputrc format, parsed back
+			type dcfg struct {
+				kind string
+				n, m int
+			}
+			dumps := []dcfg{{"bind", 1, 0}, {"bind", 2, 0}, {"macro", 1, 1}, {"var", 0, 1}, {"var", 0, 2}}
+			if tier == "thorough" {
+				dumps = append(dumps, dcfg{"macro", 1, 2}, dcfg{"macro", 2, 1}, dcfg{"var", 0, 3})
+			}
+			for _, d := range dumps {
+				j := mkJob(".ZZ_C19_Dump", shellSetup, "kind", d.kind, "n", itoa(d.n), "m", itoa(d.m))
+				j.Stubs = paintStubs
+				j.Reach = []string{"dumped"}
+				jobs = append(jobs, j)
+			}
 			return jobs
 		},
 		Assumptions: []string{
 			"runes are Unicode scalar values; r <= 0xFF or unicode.IsPrint(r) (the property's stated domain)",
 			"unicode.IsPrint/ToUpper are exact range formulas generated from the running toolchain's tables",
+			"dump jobs (ZZ_C19_Dump): the emacs table is replaced by {symbolic sequence -> forward-char or -> macro with a symbolic body, C-g -> the dump command, ESC 1 -> digit-argument}; ESC 1 C-g is typed in a real Readline call; the lines of the captured terminal output that start with a quote (or with 'set ') are parsed by inputrc.ParseBytes into a fresh Config (variables: into the running Config after changing the three values) and the binding / the values of one boolean, one integer (-1..12) and one string variable must be the original ones",
+			"the symbolic sequence does not start with the keys that run the dump (C-g, ESC 1 / M-1); the string variable's value is printable ASCII that a set directive parses to itself (configurations reachable by parsing)",
 		},
-		Stubs:  []string{"fmt.Sprintf modelled (symbolic %x digits)", "strings.Join/unicode.* models"},
-		Bounds: map[string]string{"quick": "sequence length n <= 2", "thorough": "sequence length n <= 3"},
+		Stubs:  append([]string{"fmt.Sprintf modelled (symbolic %x digits)", "strings.Join/unicode.* models", "dump jobs: tty ioctls, stdin = zzverif.Script, stdout captured as text"}, paintStubs...),
+		Bounds: map[string]string{"quick": "Escape/Unescape: sequence length n <= 2; dumps: bound sequence n <= 2, macro body 1, variable value <= 2 characters", "thorough": "Escape/Unescape: n <= 3; dumps: macro body <= 2 or sequence 2, value <= 3"},
 		Rule:   "one state per completed symbolic path; a path covers every rune assignment satisfying its path condition",
 	}
 }
@@ -214,7 +231,7 @@ func init() {
 						jobs = append(jobs, stepJob(mode, cmd, n, "", "", false, false))
 					}
 					if tier == "thorough" {
-						jobs = append(jobs, stepJob(mode, cmd, 2, "2", "", false, false))
+						jobs = append(jobs, stepJob(mode, cmd, 1, "2", "", false, false))
 					}
 				}
 			}
@@ -256,7 +273,7 @@ func init() {
 							keyJob(mode, pre, 1, 1, end, true)
 						}
 					}
-					if tier == "thorough" && len(pre) <= 1 {
+					if tier == "thorough" && (pre == "" || pre == "\x1b" || pre == "\x18" || pre == "d") {
 						keyJob(mode, pre, 2, 1, "block", false)
 					}
 				}
@@ -272,7 +289,7 @@ func init() {
 		Assumptions: stepAssumptions,
 		Stubs:       []string{"tty ioctls", "stdin = zzverif.Script", "stdout discarded"},
 		Bounds: map[string]string{"quick": "every registered command x {emacs, vi-insert, vi-command}, buffer length n <= 1, one symbolic argument key for key-reading commands",
-			"thorough": "buffer length n <= 2, numeric argument 2"},
+			"thorough": "buffer length n <= 2; numeric argument 2 on buffers of length 1; two symbolic key bytes after the prefixes none, ESC, C-x, d; faults after every prefix; undo/redo sequences of 5 steps"},
 		Rule: "one state per completed symbolic path of the step harness",
 	}
 }
